@@ -104,6 +104,28 @@ class Repo(object):
                 raise SourceError("module %s not found under %s" % (name, self.root))
         return self._mods[name]
 
+    def attr_is_assigned(self, attr):
+        """Does any statement of the package store to an attribute of that name (``x.attr = …``, ``x.attr += …``,
+        ``setattr(x, "attr", …)``)?  Scans every module of the package once."""
+        if not hasattr(self, "_assigned_attrs"):
+            import glob
+            names = set()
+            for path in glob.glob(os.path.join(self.root, "toasty", "**", "*.py"), recursive=True):
+                if os.sep + "tests" + os.sep in path:
+                    continue
+                try:
+                    tree = ast.parse(open(path).read())
+                except SyntaxError:
+                    continue
+                for n in ast.walk(tree):
+                    if isinstance(n, ast.Attribute) and isinstance(n.ctx, (ast.Store, ast.Del)):
+                        names.add(n.attr)
+                    elif (isinstance(n, ast.Call) and isinstance(n.func, ast.Name) and n.func.id == "setattr" and len(n.args) >= 2
+                          and isinstance(n.args[1], ast.Constant) and isinstance(n.args[1].value, str)):
+                        names.add(n.args[1].value)
+            self._assigned_attrs = names
+        return attr in self._assigned_attrs
+
     def split(self, qualname):
         """'toasty.pyramid.Pyramid.walk' -> (Module, 'Pyramid.walk')."""
         parts = qualname.split(".")
